@@ -2,6 +2,8 @@ import Splipy.Lemmas.C19Index
 import Splipy.Lemmas.C19G2
 import Splipy.Lemmas.C19Foreign
 import Splipy.Lemmas.C19Mesh
+import Splipy.Lemmas.C19Prims
+import Splipy.Lemmas.C19Objects
 
 /-!
 # C19 — file output is a faithful image of the objects and reads back to the same shape
@@ -148,6 +150,101 @@ theorem C19_svg_similarity {K : Type} [Field K] [LinearOrder K] [IsStrictOrdered
         (svgWritePt (svgLayout W H m (x0, y0, x1, y1)) p) = (s * p.1 + b1, s * p.2 + b2) :=
   ⟨_, _, _, svgLayout_scale_pos W H m x0 y0 x1 y1 hW hH hm0 hm hx hy,
    fun p => svg_read_write _ p⟩
+
+/-- G2 analytic primitive records (line 120, circle 130, ellipse 140, plane 250, cylinder 260,
+    surface of linear extrusion 261, sphere 270, torus 290, disc 292).  A record spelled field by
+    field in the layout of the format (`PrimRecord.toks`: header `code 1 0 0`, then one line per
+    field, optional parameter lines present exactly when the `finite` flag is set, the extrusion
+    record embedding a well-formed curve record) is parsed to exactly the factory call with those
+    fields in the documented roles, followed by the documented post-processing
+    (`PrimRecord.build`: `reparam` to the parameter bounds, `reverse` / `swap` on the flag; for the
+    sphere the extra `swap` before the flag; for the cylinder the bottom moved to
+    `center + z·v0` and height `v1 − v0`; for the torus the FIRST radius is the major one), and the
+    rest of the stream is untouched.  The geometry of the factory results is property C13, of the
+    post-processing C06. -/
+theorem C19_primitive_record_fields {K : Type} [Field K] [LinearOrder K] [FloorRing K]
+    (aux : PrimAux K) (tol : K) (rec : PrimRecord K) (h : rec.WF tol) (rest : List (Token K)) :
+    g2ReadPrim aux tol (rec.toks ++ rest) = (rec.build aux).map (·, rest) :=
+  g2ReadPrim_toks aux tol rec h rest
+
+/-- `G2.write` of an object with periodic directions, then `G2.read`: whenever the writer's
+    per-direction `split(start)` succeeds with result `o'` (`openSeams`, the C07 model of `split`)
+    and `o'` is a well-formed non-periodic object, the file reads back to exactly `o'` — the object
+    opened at its seams, no periodic direction left.  An object without periodic directions is
+    written as it is (`o' = o`).
+
+    Partial: that `o'` is well formed and describes the same geometry as `o` is not derived here;
+    it is the statement of C07 (`C07_split_periodic_partial`, with its hypothesis on periodic knot
+    insertion, which fails for bases with fewer than `p + k` functions — the `periodic-seam-split`
+    finding). -/
+theorem C19_g2_roundtrip_periodic_partial {K : Type} [Field K] [LinearOrder K] [FloorRing K]
+    (tol : K) (o o' : Splipy.Obj K) (hs : openSeams tol o = .ok o') (hwf : (toFile o').WF tol)
+    (rest : List (Token K)) :
+    (∃ toks, g2WriteObj tol o = .ok toks ∧
+      g2ReadSpline tol (toks ++ rest) = .ok (toFile o', rest)) ∧
+    (∀ b ∈ (toFile o').bases, b.periodic = -1) ∧
+    ((∀ i, ¬ (o.basis i).periodic > -1) → o' = o) := by
+  refine ⟨⟨g2Write (toFile o'), ?_, g2ReadSpline_write tol _ hwf rest⟩,
+    fun b hb => (hwf.bases b hb).nonperiodic, ?_⟩
+  · unfold g2WriteObj; rw [hs]
+  · intro hnp
+    have := openSeamsFrom_nonperiodic tol o hnp o.pardim 0
+    unfold openSeams at hs
+    rw [this] at hs
+    exact (Except.ok.inj hs).symm
+
+/-- The sampling rule of `STL.write_surface` (one direction): with `n` given, `n` equispaced
+    values from `start` to `end` inclusive, all inside the domain; without `n`, the knots for
+    order 2 and, for order ≥ 3, the sorted merge of the knots with `2p−3` equispaced values per
+    knot span (`spans·(2p−3) + #knots` values, every knot among them); order 1 without `n` is a
+    `ValueError`. -/
+theorem C19_stl_sampling {K : Type} [Field K] [LinearOrder K] [IsStrictOrderedRing K]
+    (order : ℕ) (knots : List K) (a b : K) (n : ℕ) :
+    ((linspace a b n).length = n ∧
+      (1 ≤ n → (linspace a b n).head? = some a) ∧
+      (2 ≤ n → (linspace a b n).getLast? = some b) ∧
+      (a ≤ b → ∀ x ∈ linspace a b n, a ≤ x ∧ x ≤ b)) ∧
+    (stlParams order knots (some n) = .ok (linspace (knots.headD 0) (knots.getLastD 0) n)) ∧
+    (order = 2 → stlParams order knots none = .ok knots) ∧
+    (order < 2 → stlParams order knots none = .error .value) ∧
+    (3 ≤ order → ∃ l, stlParams order knots none = .ok l ∧
+      l.Perm (((knots.zip knots.tail).flatMap fun kk => linspaceOpen kk.1 kk.2 (2 * order - 3)) ++ knots) ∧
+      l.Pairwise (· ≤ ·) ∧
+      l.length = (knots.length - 1) * (2 * order - 3) + knots.length ∧
+      ∀ k ∈ knots, k ∈ l) :=
+  ⟨linspace_spec a b n, (stlParams_spec order knots).1 n, (stlParams_spec order knots).2.1,
+   (stlParams_spec order knots).2.2.1, (stlParams_spec order knots).2.2.2⟩
+
+/-- SVG, whole drawing: every curve of a drawing is written through the same layout, so the
+    control points read back are the control points of its `bezier_representation` (model
+    `bezierRepresentation`: raise to cubic, open at the seam, insert knots to multiplicity 3) under
+    ONE map `p ↦ s·p + b`, `s > 0`, the same for all curves.  That `bezier_representation`
+    preserves the geometry of the curve is C05 (order elevation), C07 (seam) and C04 (knot
+    insertion); it is not re-proved here. -/
+theorem C19_svg_drawing {K : Type} [Field K] [LinearOrder K] [IsStrictOrderedRing K] [FloorRing K]
+    (tol W H m x0 y0 x1 y1 : K) (hW : 0 < W) (hH : 0 < H) (hm0 : 0 ≤ m) (hm : m < 1 / 2)
+    (hx : x0 < x1) (hy : y0 ≤ y1) :
+    ∃ s b1 b2 : K, 0 < s ∧ ∀ (c bz : Splipy.Obj K) (path : List (K × K)),
+      bezierRepresentation tol c = .ok bz →
+      svgPath tol (svgLayout W H m (x0, y0, x1, y1)) c = .ok path →
+      path.map (svgReadPt (svgLayout W H m (x0, y0, x1, y1)).height) =
+        (planarPts bz).map fun p => (s * p.1 + b1, s * p.2 + b2) := by
+  refine ⟨(svgLayout W H m (x0, y0, x1, y1)).scale,
+    (svgLayout W H m (x0, y0, x1, y1)).ox -
+      (svgLayout W H m (x0, y0, x1, y1)).scale * (svgLayout W H m (x0, y0, x1, y1)).cx,
+    (svgLayout W H m (x0, y0, x1, y1)).oy -
+      (svgLayout W H m (x0, y0, x1, y1)).scale * (svgLayout W H m (x0, y0, x1, y1)).cy -
+      2 * (svgLayout W H m (x0, y0, x1, y1)).margin,
+    svgLayout_scale_pos W H m x0 y0 x1 y1 hW hH hm0 hm hx hy, ?_⟩
+  intro c bz path hb hp
+  unfold svgPath at hp
+  rw [hb] at hp
+  have := Except.ok.inj hp
+  subst this
+  rw [List.map_map]
+  apply List.map_congr_left
+  intro p _
+  exact svg_read_write _ p
 
 /-! The hypotheses are satisfiable: a rational quadratic-by-linear surface in the plane. -/
 
